@@ -25,7 +25,15 @@ Environment scenarios (first token 3; coq/C18_ModelE.v):  3 <rf|~> <ra|~> eop*  
   returns (with its size) the k-th request's buffer to, the string allocator in force.
 Observation: one item per op (and per final destruction):
   :k <nev> (:A <who> <id> <sz> | :F <who> <id> <sz> | :R <id> <off> <n>)* (~ | :r <id> <off>) <warn>
-  who = 0 defaultMallocAllocator, 1 M1, 2 M2, 3 U, 4 T; ids = ordinals over all allocators; :R = where U's own string got its buffer."""
+  who = 0 defaultMallocAllocator, 1 M1, 2 M2, 3 U, 4 T; ids = ordinals over all allocators; :R = where U's own string got its buffer.
+
+Warning scenarios (first token 4; coq/C18_ModelW.v):  4 <pre> <c0> <g> wop*  with  wop ::= :a <n> | :d <k> | :f <j> <n> | :p
+  a cache behind its adaptor; the current test's output requests a buffer g bytes larger and releases its old one at every print
+  (what StringBufferTestOutput's `output += text` does), first buffer c0 bytes, allocated before the cache came (pre = 1: foreign
+  to it) or by it; :f releases a foreign buffer with size n (the first unknown release prints the warning INTO that output),
+  :d k releases the k-th request with its size, :p = the test prints.  Closing: output's buffer back, clearAll, destruction.
+Observation: one :i item per call made on the cache in the order the calls begin (the output's calls included), then
+  :x <deepest nesting of the output's print> <number of times it was entered>   (cut off and reported at nesting depth 3)."""
 ID = "C18"
 FLAVOURS = ["asan"]
 HARNESS_SRCS = ["harness/C18.cpp"]
@@ -51,7 +59,11 @@ RULE = ("histories of 1-300 operations over sizes {0,1,31,32,33,63,64,65,95,96,9
         "class of the buffers used, in another class, above the bound} x {nothing, released, in use, both} for cached and non-cached buffers; random "
         "lives of one to three objects with requests focused on the classes of rf / ra, releases in any order, episodes with the other string "
         "allocator on top (its own requests and releases), requests straight at the base allocator before / between / after the objects, "
-        "changes of the malloc allocator at every point, objects left to the implicit destruction")
+        "changes of the malloc allocator at every point, objects left to the implicit destruction.  WARNING histories (the one-time warning "
+        "printed into an output that requests and releases buffers on the cache while it prints): {output's buffer allocated before the cache "
+        "(foreign release inside the print), by the cache} x {buffer in every class, non-cached, growing across a boundary} x {one foreign "
+        "release of sizes 0,1,20,32,33,...,256,257,300,1024; two and three in a row; after / before prints of the test; between requests and "
+        "releases}; random histories of 1-25 requests, releases, foreign releases and prints")
 ASSUMPTIONS = ["a released pointer refers to readable NUL-terminated memory (the one-time warning prints it with %s by design); the harness keeps "
                "blocks given back to the underlying allocator readable for exactly such a release and poisons them otherwise",
                "the underlying allocator never fails and never returns an address twice within a history (pointer equality = block identity)",
@@ -1317,7 +1329,13 @@ LEVEL_TEXT = ("Machine-checked (Coq) theorems over an executable model of Simple
               "handed out (to the scenario or to U's own string) lies in a block obtained and not given back and overlaps no buffer in use; when "
               "the object is gone every block of every allocator obtained since its construction began is back (the whole trace is legal in the "
               "allocators' own books); without re-entry the mode's operations are alloc / dealloc / clear_all of the cache model; the three "
-              "round-5 red-team variants (table from the current malloc allocator, guarded destructor, clear before uninstall) are refuted.")
+              "round-5 red-team variants (table from the current malloc allocator, guarded destructor, clear before uninstall) are refuted. "
+              "WARNING PRINTED THROUGH THE CACHE (coq/C18_ModelW.v): the current test's output requests / releases buffers on the cache while it "
+              "prints, its first buffer foreign to the cache or not; the history of all calls (the output's included, which follow the release "
+              "that warned because the print is the last thing dealloc does) is run by the cache model and judged by the bare cache's oracle plus "
+              "the number and nesting of the output's entries; proved: run meets spec, the release that warns leaves the flag set so that no "
+              "history of calls after it warns again, a foreign pointer is unknown in every state, at most one warning in every history, nesting "
+              "at most 2; the round-7 variant (flag set after the print) is refuted.")
 LEVEL_NOTE = ("Partial for memory safety: real accesses are seen only by ASan (blocks given back are poisoned). Trusted: Coq kernel, extraction, "
               "harness, generator. Modelled not verified: the C++ itself. Class sizes, bound, node count and struct sizes are re-read from the "
               "source on every run. The bare destructor does not walk the lists (documented limit: owners clear first). Installed scenarios: "
